@@ -19,7 +19,7 @@ pub const SPEC: PropSpec = PropSpec {
 	assumptions: &["collections are presented with exact length hints, so the layout of the expected encoding is determined"],
 	cases: (50_000_000, 4_000_000_000),
 	secs: (30, 600),
-	required: &["cases_with_bytes_as_unsized_sequences", "cases_into_short_writing_sink", "permutations_equal", "omissions_equal", "duplicate_rejected", "unknown_rejected", "missing_required_rejected", "nested_out_of_order"],
+	required: &["cases_with_bytes_as_unsized_sequences", "cases_into_short_writing_sink", "cases_with_a_type_named_like_a_primitive_branch", "permutations_equal", "omissions_equal", "duplicate_rejected", "unknown_rejected", "missing_required_rejected", "nested_out_of_order"],
 	run_case,
 	once: None,
 	panics_are_violations: true,
@@ -113,7 +113,14 @@ fn build(
 		),
 		(Eff::Union(bs), Val::Union(i, x)) => {
 			let inner = build(rs, bs[*i], x, rng, None, shuffle_nested, nested_ooo);
-			Call::NewtypeVariant(rs.branch_name(bs[*i]), Box::new(inner))
+			let is_null = matches!(rs.eff(bs[*i]), Eff::Null);
+			let a_type_is_called_null = bs.iter().any(|&b| !matches!(rs.eff(b), Eff::Null) && rs.branch_name(b) == "Null");
+			if is_null && a_type_is_called_null {
+				// the name `Null` designates that type here; the null branch is reached through its own serde type
+				Call::Unit
+			} else {
+				Call::NewtypeVariant(rs.branch_name(bs[*i]), Box::new(inner))
+			}
 		}
 		(Eff::Bytes, Val::Bytes(b)) if BYTES_AS_UNSIZED_SEQ.with(|x| x.get()) => Call::Seq(None, b.iter().map(|x| Call::U8(*x)).collect()),
 		_ => canonical_call(rs, id, v),
@@ -204,6 +211,34 @@ fn record_schema(rng: &mut Rng) -> RSchema {
 pub fn run_case(ctx: &mut Ctx, case_seed: u64) {
 	let mut rng = Rng::new(case_seed);
 	let rs = record_schema(&mut rng);
+	// a named type that is a branch of a union with null is now and then called `Null` (or `Int`, `String`): the names under
+	// which primitive branches are selected must not get in the way of omitted / explicit nulls
+	let mut rs = rs;
+	if rng.chance(1, 8) {
+		let mut target: Option<Id> = None;
+		for n in rs.nodes.iter() {
+			if let Kind::Union(bs) = &n.kind {
+				if bs.iter().any(|&b| matches!(rs.nodes[b].kind, Kind::Null)) {
+					// (a type that already lives in the null namespace: renaming must not move it to another one)
+					if let Some(&b) = bs.iter().find(|&&b| matches!(&rs.nodes[b].kind, Kind::Enum { name, .. } | Kind::Fixed { name, .. } if !name.contains('.'))) {
+						target = Some(b);
+						break;
+					}
+				}
+			}
+		}
+		// (only `Null`: a type called `Int` next to an int branch makes the name `Int` designate the type, by the
+		// documented priority of fullnames, and the harness selects branches by name)
+		let new_name = "Null".to_owned();
+		let taken = rs.nodes.iter().any(|n| matches!(&n.kind, Kind::Record { name, .. } | Kind::Enum { name, .. } | Kind::Fixed { name, .. } if *name == new_name));
+		if let (Some(t), false) = (target, taken) {
+			match &mut rs.nodes[t].kind {
+				Kind::Enum { name, .. } | Kind::Fixed { name, .. } => *name = new_name,
+				_ => {}
+			}
+			ctx.count("cases_with_a_type_named_like_a_primitive_branch");
+		}
+	}
 	let unsized_bytes = rng.chance(1, 3);
 	BYTES_AS_UNSIZED_SEQ.with(|b| b.set(unsized_bytes));
 	let quota = if rng.chance(1, 4) { *rng.pick(&[1usize, 2, 3, 7, 16]) } else { 0 };
